@@ -215,7 +215,9 @@ static void do_map(int mt, int nt, int P, int Q, int hang)
     wd_armed = 0; pthread_join(wd, NULL);
     if( hang ) fprintf(out, "maphang %s => completed\n", wd_desc);
     int next = mirror_ok ? (int)mir->next_n : -1;
-    fprintf(out, "map %d %d %d ", mt, nt, cores);
+    /* the number of execution streams the start-up function really sees (parsec_init may give fewer than asked) */
+    int real_cores = parsec->virtual_processes[0]->nb_cores;
+    fprintf(out, "map %d %d %d ", mt, nt, real_cores);
     int nloc = 0;
     for(int m = 0; m < mt; m++) { if( m ) fputc('/', out); for(int n = 0; n < nt; n++) { int l = is_local(&A, m, n); nloc += l; fputc('0' + l, out); } }
     fputc(' ', out);
@@ -232,7 +234,7 @@ static void do_map(int mt, int nt, int P, int Q, int hang)
         if( b[1] != c || (c == 1 && b[0] != 1000 * m + n + 1) ) fprintf(out, "!viol map %d %d: dest tile (%d,%d) holds (%d,%d) after %d logged invocations\n", mt, nt, m, n, b[0], b[1], c);
     } else if( m_cnt[m * nt + n] ) fprintf(out, "!viol map %d %d: operator ran on rank %d for tile (%d,%d) owned by another rank\n", mt, nt, myrank, m, n);
     if( m_oob ) fprintf(out, "!viol map %d %d: %d operator invocations outside the matrix\n", mt, nt, m_oob);
-    fprintf(out, "#stat map_cases 1\n#stat map_local_tiles %d\n#stat map_mirror_bad %d\n", nloc, !mirror_ok);
+    fprintf(out, "#stat map_cases 1\n#stat map_local_tiles %d\n#stat map_mirror_bad %d\n#stat map_cores_%d 1\n#stat map_nb_vp_%d 1\n", nloc, !mirror_ok, real_cores, parsec->nb_vp);
     parsec_taskpool_free(tp);
     mat_fini(&A); mat_fini(&B);
 }
